@@ -11,6 +11,18 @@ def TcbCaps (cfg : Cfg) (t : Tcb) : Prop :=
 
 namespace Tcb
 
+/-- The reply to a segment is always a pure ACK: no payload, no FIN, acknowledging `rcv_nxt` with the
+    current window; only its sequence number depends on whether it answers an old duplicate. -/
+theorem replySeg_facts (cfg : Cfg) (t : Tcb) (s : Seg) (a b : Nat) :
+    (t.replySeg cfg s a b).payload = [] ∧ (t.replySeg cfg s a b).flags.fin = false ∧
+    (t.replySeg cfg s a b).ack = t.rcvNxt ∧
+    (t.replySeg cfg s a b).window = advWindow cfg.recvCap t.recvBuf.length ∧
+    ((t.replySeg cfg s a b).seq = t.sndNxt ∨ (t.replySeg cfg s a b).seq = t.sndMax) := by
+  unfold replySeg
+  split
+  · exact ⟨rfl, rfl, rfl, rfl, Or.inr rfl⟩
+  · exact ⟨rfl, rfl, rfl, rfl, Or.inl rfl⟩
+
 theorem caps_fresh (cfg : Cfg) (st : TcpState) (p : SockAddr) (a b c : Nat) : TcbCaps cfg (fresh st p a b c) := by
   simp [TcbCaps, fresh]
 
